@@ -189,3 +189,219 @@ pub fn scenario(ch: &mut Chooser, thorough: bool) -> Exec {
     }
     Exec { outcome: Digest::of64(&obs), violation, features: feats }
 }
+
+/// Both directions at once, one side busy: side B streams a reply larger than A's receive
+/// cap plus B's own send cap can hold and shuts down; A (the busy side) reads nothing for a
+/// while, then writes a small request and shuts down, stays busy for longer than any
+/// retransmit budget, and only then reads to EOF; B reads the request to EOF all along.
+/// FIFO wire with a fixed latency, nothing lost: nobody may give up, both byte streams and
+/// both EOFs arrive.
+pub fn bidir_scenario(ch: &mut Chooser, thorough: bool) -> Exec {
+    let lat: u32 = 1 + ch.choose("one_way_latency_rounds_minus_1", 3) as u32;
+    let (thr, max) = *ch.of("retx(threshold,max)", &[(2u32, 4u32), (3, 5)]);
+    let mtu = *ch.of("mtu", &[42u32, 1500]);
+    let caps = *ch.of("send_recv_caps", &[(4usize, 4usize), (8, 4), (4, 8), (64, 64)]);
+    let reply = *ch.of("reply_bytes", if thorough { &[3usize, 12, 40, 200][..] } else { &[12usize, 40][..] });
+    let req = *ch.of("request_bytes", &[1usize, 5]);
+    let busy1: u32 = *ch.of("busy_rounds_before_the_request", &[0u32, 5, 15]);
+    let busy2: u32 = *ch.of("busy_rounds_after_the_request", &[0u32, 12, 30]);
+    let busy_is_acceptor = ch.flag("the_busy_side_is_the_accepting_one");
+    if 2 * lat >= thr * (max + 1) {
+        return Exec { outcome: 1, violation: None, features: vec!["skipped-unbounded-delay"] };
+    }
+    let kc = KernelConfig::default().mtu(mtu).send_buf_cap(caps.0).recv_buf_cap(caps.1).retx_threshold(thr).retx_max(max);
+    let mut net = Net::with_config(kc);
+    let (cip, sip): (IpAddr, IpAddr) = ("10.0.0.1".parse().unwrap(), "10.0.0.2".parse().unwrap());
+    let c = net.add_host(cip);
+    let s = net.add_host(sip);
+    let hosts = [c, s];
+    let guard = net.enter();
+    let round: Rc<RefCell<u32>> = Rc::new(RefCell::new(0));
+    #[derive(Default)]
+    struct Log {
+        /// [busy side, streaming side]
+        read: [Vec<u8>; 2],
+        eof: [bool; 2],
+        err: Vec<String>,
+        done: [bool; 2],
+    }
+    let log: Rc<RefCell<Log>> = Rc::new(RefCell::new(Log::default()));
+    async fn wait_rounds(round: &Rc<RefCell<u32>>, n: u32) {
+        let until = *round.borrow() + n;
+        std::future::poll_fn(|cx| {
+            if *round.borrow() >= until {
+                std::task::Poll::Ready(())
+            } else {
+                cx.waker().wake_by_ref();
+                std::task::Poll::Pending
+            }
+        })
+        .await;
+    }
+    let pat_reply = |k: usize| (k % 241) as u8;
+    let pat_req = |k: usize| (200 + k % 50) as u8;
+    // the busy side
+    let busy = {
+        let (log, round) = (log.clone(), round.clone());
+        move |mut st: TcpStream| async move {
+            wait_rounds(&round, busy1).await;
+            let data: Vec<u8> = (0..req).map(pat_req).collect();
+            if let Err(e) = st.write_all(&data).await {
+                log.borrow_mut().err.push(format!("busy side: write of the request: {}", errk(&e)));
+            }
+            if let Err(e) = st.shutdown().await {
+                log.borrow_mut().err.push(format!("busy side: shutdown: {}", errk(&e)));
+            }
+            wait_rounds(&round, busy2).await;
+            let mut buf = [0u8; 64];
+            loop {
+                match st.read(&mut buf).await {
+                    Ok(0) => {
+                        log.borrow_mut().eof[0] = true;
+                        break;
+                    }
+                    Ok(n) => log.borrow_mut().read[0].extend_from_slice(&buf[..n]),
+                    Err(e) => {
+                        log.borrow_mut().err.push(format!("busy side: read: {}", errk(&e)));
+                        break;
+                    }
+                }
+            }
+            log.borrow_mut().done[0] = true;
+            std::future::pending::<()>().await;
+        }
+    };
+    // the streaming side
+    let streaming = {
+        let log = log.clone();
+        move |st: TcpStream| async move {
+            let (mut rd, mut wr) = st.into_split();
+            let l1 = log.clone();
+            let w = async move {
+                let data: Vec<u8> = (0..reply).map(pat_reply).collect();
+                if let Err(e) = wr.write_all(&data).await {
+                    l1.borrow_mut().err.push(format!("streaming side: write of the reply: {}", errk(&e)));
+                }
+                if let Err(e) = wr.shutdown().await {
+                    l1.borrow_mut().err.push(format!("streaming side: shutdown: {}", errk(&e)));
+                }
+                wr
+            };
+            let l2 = log.clone();
+            let r = async move {
+                let mut buf = [0u8; 64];
+                loop {
+                    match rd.read(&mut buf).await {
+                        Ok(0) => {
+                            l2.borrow_mut().eof[1] = true;
+                            break;
+                        }
+                        Ok(n) => l2.borrow_mut().read[1].extend_from_slice(&buf[..n]),
+                        Err(e) => {
+                            l2.borrow_mut().err.push(format!("streaming side: read: {}", errk(&e)));
+                            break;
+                        }
+                    }
+                }
+                rd
+            };
+            let (_w, _r) = tokio::join!(w, r);
+            log.borrow_mut().done[1] = true;
+            std::future::pending::<()>().await;
+        }
+    };
+    let mut exec = Executor::new();
+    {
+        let log = log.clone();
+        let (busy, streaming) = (busy.clone(), streaming.clone());
+        exec.spawn(1, async move {
+            let Ok(l) = TcpListener::bind(SocketAddr::new(sip, 80)).await else { return };
+            let st = match l.accept().await {
+                Ok((st, _)) => st,
+                Err(e) => {
+                    log.borrow_mut().err.push(format!("accept: {}", errk(&e)));
+                    return;
+                }
+            };
+            if busy_is_acceptor {
+                busy(st).await
+            } else {
+                streaming(st).await
+            }
+        });
+    }
+    {
+        let log = log.clone();
+        exec.spawn(0, async move {
+            let st = match TcpStream::connect(SocketAddr::new(sip, 80)).await {
+                Ok(s) => s,
+                Err(e) => {
+                    log.borrow_mut().err.push(format!("connect: {}", errk(&e)));
+                    return;
+                }
+            };
+            if busy_is_acceptor {
+                streaming(st).await
+            } else {
+                busy(st).await
+            }
+        });
+    }
+    let mut wire: VecDeque<(u32, turmoil_net::Packet)> = VecDeque::new();
+    let per_rtt = caps.0.min(caps.1).max(1) as u32;
+    let horizon = busy1 + busy2 + (2 * lat + 2) * (reply as u32 / per_rtt + 12) + thr * (max + 2) + 40;
+    for r in 0..horizon {
+        *round.borrow_mut() = r;
+        while wire.front().map(|(t, _)| *t <= r).unwrap_or(false) {
+            let (_, p) = wire.pop_front().unwrap();
+            guard.deliver(p);
+        }
+        exec.run_until_stalled(4000, |tag| turmoil_net::set_current(hosts[tag as usize]));
+        let mut out = vec![];
+        guard.egress_all(&mut out);
+        for p in out {
+            if std::env::var_os("VX_TRACE").is_some() {
+                eprintln!("round {r}: emit {}", crate::wire::pkt_key(&p));
+            }
+            wire.push_back((r + lat, p));
+        }
+        let l = log.borrow();
+        if (l.done[0] && l.done[1]) || !l.err.is_empty() {
+            break;
+        }
+    }
+    let l = log.borrow();
+    let want_reply: Vec<u8> = (0..reply).map(pat_reply).collect();
+    let want_req: Vec<u8> = (0..req).map(pat_req).collect();
+    let mut violation: Option<Violation> = None;
+    if !want_reply.starts_with(&l.read[0]) || !want_req.starts_with(&l.read[1]) {
+        violation = Some(Violation::new("prefix", format!("busy side read {:?}, streaming side read {:?}: not prefixes of what was written", &l.read[0][..l.read[0].len().min(16)], l.read[1])));
+    } else if !l.err.is_empty() {
+        violation = Some(Violation::new(
+            "aborted",
+            format!("no packet was lost and the round trip ({} rounds) is below retx_threshold x (retx_max + 1) = {}: {:?}", 2 * lat, thr * (max + 1), l.err),
+        ));
+    } else if l.read[0].len() != reply || l.read[1].len() != req || !l.eof[0] || !l.eof[1] {
+        violation = Some(Violation::new(
+            "stall",
+            format!(
+                "no packet was lost, round trip {} rounds: after {horizon} rounds the busy side has {} of {reply} reply bytes (EOF {}), the streaming side {} of {req} request bytes (EOF {})",
+                2 * lat,
+                l.read[0].len(),
+                l.eof[0],
+                l.read[1].len(),
+                l.eof[1]
+            ),
+        ));
+    }
+    drop(l);
+    drop(exec);
+    drop(guard);
+    let obs = format!("lat={lat} retx=({thr},{max}) mtu={mtu} caps={caps:?} reply={reply} req={req} busy=({busy1},{busy2}) busy_is_acceptor={busy_is_acceptor}");
+    if let Some(v) = violation.as_mut() {
+        v.sig = format!("fixed-latency-bidir|{}", v.clause);
+        v.scenario = format!("c06-bidir tier={} {obs}", if thorough { "thorough" } else { "quick" });
+        v.actions = vec![obs.clone()];
+    }
+    Exec { outcome: Digest::of64(&obs), violation, features: vec![] }
+}
